@@ -20,7 +20,9 @@ META = {
     "text": "Coq theorems: the HDS reader model (_iter_runs run coalescer with an explicit sparse sentinel, BAT entries in "
             "sectors (v1) or clusters (v2), _read) returns exactly the guest bytes for every BAT, cluster size, physical "
             "placement and request — in particular whatever file offset an allocated cluster has relative to the sparse "
-            "run before it — and terminates for arbitrary tables; tied to hdd.py by differential correspondence.",
+            "run before it — and terminates for arbitrary tables; HDS images are layers of the chain theorem and a .hdd directory split "
+            "over several storages, each with its own snapshot chain, reads as the concatenation of the per-storage overlays "
+            "(Model/Hdd.v, hdd_read_correct); tied to hdd.py by differential correspondence (hds and hdd_split suites).",
     "design_ref": "DESIGN.md §6 C03–C06",
     "note": "Trusted: Coq kernel; hand-written Model/Hds.v validated against HDS._iter_runs/_read on generated images only; "
             "Gen/Consts.v (SECTOR_SIZE) from the translator; cstruct union/array decoding as exercised.",
